@@ -4,7 +4,7 @@ CONSTANTS
   Procs = {1, 2, 3}
   Prog <- P3
   MaskedFull = FALSE
-  StaleCell = FALSE
-  Textbook = TRUE
+  StaleCell = TRUE
+  Textbook = FALSE
 INVARIANT LinOK
 CHECK_DEADLOCK FALSE
